@@ -41,6 +41,9 @@ Fixpoint beq (a b : bytes) : bool :=
   | _, _ => false
   end.
 
+(** linear-time reversal (List.rev is quadratic) *)
+Definition frev {A : Type} (l : list A) : list A := rev_append l [].
+
 Definition is_nil (s : bytes) : bool := match s with [] => true | _ => false end.
 
 Definition no_nul (s : bytes) : bool := forallb (fun c => negb (c =? 0)) s.
@@ -88,8 +91,8 @@ Fixpoint lex_body (esc : bool) (s : bytes) (acc : bytes) : option (bytes * bytes
   | c :: r =>
     if c =? 39 then
       match r with
-      | c2 :: r2 => if c2 =? 39 then lex_body esc r2 (39 :: acc) else Some (rev acc, r)
-      | [] => Some (rev acc, [])
+      | c2 :: r2 => if c2 =? 39 then lex_body esc r2 (39 :: acc) else Some (frev acc, r)
+      | [] => Some (frev acc, [])
       end
     else if esc && (c =? 92) then
       match r with
@@ -178,13 +181,13 @@ Fixpoint split_go (scs_off : bool) (st : lst) (s cur : bytes) (out : list bytes)
   match s with
   | [] =>
     match st with
-    | LNorm _ | LLine => Some (rev (rev cur :: out))
+    | LNorm _ | LLine => Some (frev (frev cur :: out))
     | _ => None
     end
   | c :: r =>
     match st with
     | LNorm p =>
-      if c =? 59 then split_go scs_off (LNorm POther) r [] (rev cur :: out)
+      if c =? 59 then split_go scs_off (LNorm POther) r [] (frev cur :: out)
       else if c =? 39 then
         split_go scs_off (LStr (match p with PE => true | _ => scs_off end)) r (c :: cur) out
       else if c =? 34 then split_go scs_off LDq r (c :: cur) out
